@@ -240,6 +240,12 @@ pub(crate) fn alternate_lookup_key(name: &str) -> Option<(&str, Version)> {
     }
 }
 
+/// Verification hook: exposes the crate-private alternate lookup key.
+#[cfg(wac_verif)]
+pub fn verif_alternate_lookup_key(name: &str) -> Option<(String, String)> {
+    alternate_lookup_key(name).map(|(k, v)| (k.to_string(), v.to_string()))
+}
+
 #[cfg(test)]
 mod tests {
     use super::{NameMap, NameMapNoIntern};
